@@ -38,6 +38,12 @@ type ttyCons struct {
 	LogoColors int    `json:"logocolors,omitempty"`
 	LogoTransp uint8  `json:"logotransp,omitempty"`
 	LogoSeed   uint32 `json:"logoseed,omitempty"`
+
+	// grid consoles (kinds "grid" and "fbsize"): the default colours the console reports,
+	// (7, 0) unless Colors is set
+	Colors bool  `json:"colors,omitempty"`
+	Fg     uint8 `json:"fg,omitempty"`
+	Bg     uint8 `json:"bg,omitempty"`
 }
 
 // ttyOp is one step of a history.
@@ -47,6 +53,9 @@ type ttyCons struct {
 //	"cur"    SetCursorPosition(X, Y)
 //	"state"  SetState(active if On)
 //	"attach" AttachTo(a new console described by Cons)
+//	"other"  another terminal comes into being: NewVT with the same settings, attached to its own
+//	         cell-grid console (Cons), made active when On is set, B written to it. It shares
+//	         nothing with the terminal under test, which must not notice.
 type ttyOp struct {
 	K    string   `json:"k"`
 	B    []int    `json:"b,omitempty"` // byte values 0..255 (ints keep the replay file readable)
@@ -96,6 +105,11 @@ func (op ttyOp) String() string {
 			return fmt.Sprintf("AttachTo(%s %dx%d)", op.Cons.Kind, op.Cons.W, op.Cons.H)
 		}
 		return "AttachTo(?)"
+	case "other":
+		if op.Cons != nil {
+			return fmt.Sprintf("[another terminal is created on its own %dx%d console and gets %d bytes]", op.Cons.W, op.Cons.H, len(op.B))
+		}
+		return "[another terminal]"
 	}
 	return "?" + op.K
 }
@@ -235,10 +249,11 @@ type gridCons struct {
 	undefined []bool
 	touches   int    // Fill / Scroll / Write / SetPaletteColor calls
 	outside   string // first drawing call addressing a cell outside the grid
+	fg, bg    uint8  // DefaultColors
 }
 
 func newGridCons(w, h uint32) *gridCons {
-	g := &gridCons{w: w, h: h, cells: make([]ttyCell, w*h), undefined: make([]bool, w*h)}
+	g := &gridCons{w: w, h: h, cells: make([]ttyCell, w*h), undefined: make([]bool, w*h), fg: 7, bg: 0}
 	for i := range g.cells {
 		g.cells[i] = ttyCell{'?', 0x5a, 0xa5} // "never drawn"
 	}
@@ -251,7 +266,26 @@ func (g *gridCons) Dimensions(d console.Dimension) (uint32, uint32) {
 	}
 	return g.w, g.h
 }
-func (g *gridCons) DefaultColors() (uint8, uint8)                 { return 7, 0 }
+func (g *gridCons) DefaultColors() (uint8, uint8)                 { return g.fg, g.bg }
+
+// newGridConsFor builds the cell-grid console a case describes.
+func newGridConsFor(spec ttyCons) *gridCons {
+	g := newGridCons(spec.W, spec.H)
+	if spec.Colors {
+		g.fg, g.bg = spec.Fg, spec.Bg
+	}
+	return g
+}
+
+// ttyGenColors draws the default colours of a grid console: mostly the usual light grey on
+// black, otherwise any pair.
+func ttyGenColors(t *rapid.T, c *ttyCons) {
+	if rapid.IntRange(0, 3).Draw(t, "colors") == 0 {
+		c.Colors = true
+		c.Fg = rapid.SampledFrom([]uint8{0, 1, 7, 15, 16, 255, 0x20, 7}).Draw(t, "deffg")
+		c.Bg = rapid.SampledFrom([]uint8{0, 1, 7, 15, 16, 255, 0x20, 4}).Draw(t, "defbg")
+	}
+}
 func (g *gridCons) Palette() color.Palette                        { return nil }
 func (g *gridCons) SetPaletteColor(uint8, color.RGBA)             { g.touches++ }
 
@@ -344,9 +378,23 @@ func ttyApply(vt *VT, op ttyOp) string {
 		} else {
 			vt.SetState(StateInactive)
 		}
+	case "other":
+		if op.Cons == nil || ttyValidCons(*op.Cons) != nil || (op.Cons.Kind != "grid") {
+			return ""
+		}
+		o := NewVT(vt.tabWidth, vt.scrollback)
+		o.AttachTo(newGridConsFor(*op.Cons))
+		if op.On {
+			o.SetState(StateActive)
+		}
+		o.Write(op.bytes())
+		ttyOthers = append(ttyOthers, o)
 	}
 	return ""
 }
+
+// ttyOthers keeps the other terminals of the running case alive.
+var ttyOthers []*VT
 
 // ttyApplyRef performs the same op on the reference terminal.
 func ttyApplyRef(r *refTerm, op ttyOp) {
@@ -491,6 +539,10 @@ func ttyGenOp(consGen func(*rapid.T) ttyCons, manyStates bool) func(*rapid.T) tt
 			return ttyOp{K: "w", B: ttyGenChunk(t)}
 		case k < stateFrom || k == 99: // ~14% (~9%)
 			return ttyOp{K: "cur", X: ttyGenCoord(t, "x"), Y: ttyGenCoord(t, "y")}
+		case k == 96 && consGen != nil: // ~0.5%
+			oc := ttyCons{Kind: "grid", W: ttyGenDim(t, "ow", 12), H: ttyGenDim(t, "oh", 6)}
+			ttyGenColors(t, &oc)
+			return ttyOp{K: "other", Cons: &oc, On: rapid.Bool().Draw(t, "otheractive"), B: ttyGenChunk(t)}
 		case k < 97 || consGen == nil:
 			return ttyOp{K: "state", On: rapid.IntRange(0, 2).Draw(t, "on") != 2}
 		}
